@@ -283,12 +283,22 @@ impl<H: Hasher> MerkleTree<H> {
     ///
     /// # Errors
     /// Returns an error if the specified `proof` (which is a Merkle path) does not resolve to the
-    /// specified `root`.
+    /// specified `root`, is too short or too long to be a Merkle path, or if `index` is not a
+    /// valid leaf index for a tree of the depth implied by the path.
     pub fn verify(
         root: H::Digest,
         index: usize,
         proof: &[H::Digest],
     ) -> Result<(), MerkleTreeError> {
+        // a path consists of a leaf, its sibling, and one node per remaining level of the tree
+        if proof.len() < 2 || proof.len() > usize::BITS as usize {
+            return Err(MerkleTreeError::InvalidProof);
+        }
+        let num_leaves = 2usize.pow((proof.len() - 1) as u32);
+        if index >= num_leaves {
+            return Err(MerkleTreeError::LeafIndexOutOfBounds(num_leaves, index));
+        }
+
         let r = index & 1;
         let mut v = H::merge(&[proof[r], proof[1 - r]]);
 
